@@ -63,7 +63,8 @@ def _roles(w: Worklist):
 
 def rule_dfs(A: Analysis, rep):
     insts = [("load_transitive_closure", A.fn(TI + "load_transitive_closure")),
-             ("validate_all_loaded_tasks.do_traversal", A.fn(TI + "validate_all_loaded_tasks.do_traversal"))]
+             # the traversal helper (nested function / private method, whatever its name) is inlined into its caller by sa/inline.py
+             ("validate_all_loaded_tasks.do_traversal", A.fn(TI + "validate_all_loaded_tasks"))]
     for name, fi in insts:
         wls = find_worklists(A, fi)
         if len(wls) != 1:
@@ -162,7 +163,7 @@ def rule_dfs(A: Analysis, rep):
     mat = [n for n in g.nodes if n.kind == "stmt" and A.calls_in(n.ast, "TaskIndex._materialize_raw_task")]
     ok = ok and bool(mat) and all(not g.all_paths_pass(g.entry, m, [], skip_labels=skip) or True for m in mat)
     rep.check(bool(ok), "DFS2", "undefined task ⇒ TaskNotFound", ls.node, "", "load_single_task does not raise TaskNotFound for a name missing from its COND file")
-    dt = A.fn(TI + "validate_all_loaded_tasks.do_traversal")
+    dt = A.fn(TI + "validate_all_loaded_tasks")
     g = A.cfg(dt, "plain")
     rs = [n for n in g.nodes if n.kind == "stmt" and isinstance(n.ast, ast.Raise) and "TaskNotFound" in norm(n.ast)]
     ok = len(rs) == 1 and all(any(a.endswith(",self._loaded_tasks)") and a.startswith("in(") and not p for a, p in c) for c in A.path_guards(g, find_worklists(A, dt)[0].pop_node(), rs[0], dt))
@@ -208,7 +209,7 @@ def rule_dup1(A: Analysis, rep):
 
 def rule_root1(A: Analysis, rep):
     fi = A.fn(TI + "validate_all_loaded_tasks")
-    dt = fi.nested.get("do_traversal")
+    dt = fi
     loops = [l for l in fi.node.body if isinstance(l, ast.For)]
     ok = len(loops) == 1 and norm(loops[0].iter) in ("self._loaded_tasks.keys()", "self._loaded_tasks", "list(self._loaded_tasks.keys())", "list(self._loaded_tasks)")
     det = "outer loop not over all loaded tasks"
@@ -221,7 +222,8 @@ def rule_root1(A: Analysis, rep):
         be = [x for (x, lb) in hdr.succ if lb == "T"][0]
         sets = [n for n in g.nodes if n.kind == "stmt" and isinstance(n.ast, ast.Assign) and isinstance(n.ast.targets[0], ast.Subscript)
                 and norm(n.ast.targets[0].slice) == t and norm(n.ast.value) == "0" and id(n.ast) in {id(x) for x in ast.walk(l)}]
-        trav = [n for n in g.nodes if n.kind == "stmt" and norm(n.ast) == "do_traversal(%s)" % t]
+        # the traversal of task t: the worklist loop whose stack is seeded with t
+        trav = [w_.init_node() for w_ in find_worklists(A, fi) if w_.init_node() is not None and ("(%s, " % t) in norm(w_.init_node().ast)]
         cand = norm(sets[0].ast.targets[0].value) if sets else None
         ok = len(sets) == 1 and len(trav) == 1
         if ok:
